@@ -20,18 +20,13 @@ def wsCode : FNode → Nat
   | .tok tt _ => if tt.isIn T.Whitespace then 0 else 1
   | .grp _ _ ks => if ks.any (fun k => !k.isWhitespace) then 1 else 2
 
-/-- `_stripws_parenthesis` does not raise on a child list with these codes: there is a non-whitespace child after the first
-(`tokens[1]`), the part before the last child does not consist of whitespace only (`tokens[-2]`), and the last non-whitespace
-child before the last one, if it is a group, has a non-whitespace child (`tokens[-2].tokens[-1]`) -/
-def parenCodesOK : List Nat → Bool
-  | [] => false
-  | first :: tl =>
-    match tl.dropWhile (· == 0) with
-    | [] => false
-    | t1 :: tl1 =>
-      match ((first :: t1 :: tl1).dropLast.reverse.dropWhile (· == 0)) with
-      | [] => false
-      | pen :: _ => pen != 2
+/-- `_stripws_parenthesis` does not raise on a child list with these codes: after the two guarded loops have removed the
+whitespace after the first and before the last child, the last but one child (if there are at least two children) is not a
+group consisting of whitespace only (`tokens[-2].tokens[-1]` on an emptied list) -/
+def parenCodesOK (codes : List Nat) : Bool :=
+  match (trimInsideBy (· == 0) codes).reverse with
+  | _ :: pen :: _ => pen != 2
+  | _ => true
 
 mutual
 def stripws : FNode → Bool
@@ -56,14 +51,13 @@ def caseItemOK (cv : Option TL × TL) : Bool :=
 def caseTagsOK (tl : TL) (cases : List (Option TL × TL)) : Bool :=
   cases.all fun cv => ((cv.1.getD []) ++ cv.2).all fun e => e.1 != 0 && (tlIndex tl e.1).isSome
 
-/-- `_process_case` of the aligned filter does not raise: the appended `(None, [end_token])` entry needs an `END` child unless
-it is the only entry -/
+/-- `_process_case` of the aligned filter does not raise: `max(condition_width)` needs a case or an `END` child -/
 def alignedCaseOK (ks : List FNode) : Bool :=
   match getCases true (tagAll ks) with
   | .error _ => false
   | .ok cases =>
     cases.all caseItemOK && caseTagsOK (tagAll ks) cases &&
-      (cases.isEmpty || (tagAll ks).any (fun e => e.2.matchKw "END"))
+      (!cases.isEmpty || (tagAll ks).any (fun e => e.2.matchKw "END"))
 
 mutual
 def aligned : FNode → Bool
